@@ -230,6 +230,27 @@ fn inject(rng: &mut Rng, p: &Project, tree: &mut BTreeMap<String, String>, kind:
             Some(Injected { file: f, kind: kind.into(), stage: 4 })
         }
         "dangling_import" | "missing_import_name" => {
+            // (now and then the same faulty line at the top of a second file: two import errors at
+            // the same line and column of different files are two errors)
+            if kind == "dangling_import" && op_files.len() >= 2 && rng.chance(1, 2) {
+                let mut files = op_files.clone();
+                rng.shuffle(&mut files);
+                // only files that do not reach each other (an error in an imported file is reported
+                // for the importing document as well: the "masked" known finding)
+                let model: Vec<(String, Vec<crate::model::ImportLine>, Vec<String>, bool)> = p.ops.iter().enumerate().map(|(k, f)| (p.op_abs(k), f.imports.clone(), vec![], true)).collect();
+                let idx = |path: &String| op_files.iter().position(|x| x == path).unwrap();
+                let (a, b) = (files[0].clone(), files[1].clone());
+                let ra = crate::e3::reference_closure(&model, idx(&a)).reach;
+                let rb = crate::e3::reference_closure(&model, idx(&b)).reach;
+                if !ra.contains(&idx(&b)) && !rb.contains(&idx(&a)) {
+                    for f in [&a, &b] {
+                        let t = format!("#import ZzGhost from \"./zz-no-such-file.graphql\"\n{}", tree[f]);
+                        tree.insert(f.clone(), t);
+                    }
+                    return_extra.push(Injected { file: b, kind: kind.into(), stage: 3 });
+                    return Some(Injected { file: a, kind: kind.into(), stage: 3 });
+                }
+            }
             let f = rng.pick(&op_files).clone();
             let line = if kind == "dangling_import" {
                 "#import ZzGhost from \"./zz-no-such-file.graphql\"".to_string()
@@ -983,7 +1004,12 @@ fn drive_arte(sc: &E2Scenario, rep: &mut RunReport) {
             }
         }
         if !only.is_empty() {
-            sandbox::write_tree(&only);
+            if re.chance(1, 3) {
+                sandbox::write_tree_with_mtime(&only, 978_307_200 + re.below(1_000_000) as u64);
+                rep.fault("restore_with_old_mtime");
+            } else {
+                sandbox::write_tree(&only);
+            }
             rep.fault("input_edit_between_runs");
             let (r2, after2) = rn.on_tree(&["generate"], "json", sc.hash_seeds[0], Some(sc.readdir_seeds[0]), &[]);
             rep.events += 1;
@@ -1114,7 +1140,13 @@ fn drive_c14(sc: &E2Scenario, rep: &mut RunReport) {
         rep.fault("config_edit_between_runs");
         let mut only_cfg: Tree = [(p.config_path(), p.config_text().into_bytes())].into_iter().collect();
         only_cfg.extend(restore);
-        sandbox::write_tree(&only_cfg);
+        // (restored from a backup that keeps time stamps, or edited now)
+        if rh.chance(1, 2) {
+            sandbox::write_tree_with_mtime(&only_cfg, 978_307_200 + rh.below(1_000_000) as u64);
+            rep.fault("restore_with_old_mtime");
+        } else {
+            sandbox::write_tree(&only_cfg);
+        }
         rn.on_tree(&["generate"], "json", sc.hash_seeds[0], Some(sc.readdir_seeds[0]), &[])
     } else {
         rn.fresh(&["generate"], "json", sc.hash_seeds[0], Some(sc.readdir_seeds[0]), &[])
@@ -1144,6 +1176,7 @@ fn drive_c14(sc: &E2Scenario, rep: &mut RunReport) {
         configs: vec![p.config_text()],
         ops: vec![],
         l1: Some(plan.clone()),
+        debug_log: false,
     };
     let e1sc2 = e1sc.clone();
     // half of the runs: the same loader instance has served another configuration before
@@ -1348,7 +1381,34 @@ fn drive_c17(sc: &E2Scenario, rep: &mut RunReport) {
                 let ofiles: Vec<(String, String)> = order_o.iter().map(|p| (p.clone(), texts[p].clone())).collect();
                 let cfg = p.config_text();
                 let hs = sc.hash_seeds[0] ^ 0x5a5a_1234;
-                let out = crate::hashseed::on_fresh_instance(hs, move || crate::libgen::lib_generate(&cfg, &sfiles, &ofiles));
+                // The same thread has served another schema before (as a long-lived process that calls
+                // the library does): a variant of this schema in which no type implements an
+                // interface, without operations.  Its result is ignored.
+                let decoy: Vec<(String, String)> = sfiles
+                    .iter()
+                    .map(|(p, t)| {
+                        let t2: Vec<String> = t
+                            .split('\n')
+                            .map(|l| {
+                                let head = l.starts_with("type ") || l.starts_with("interface ") || l.starts_with("extend type ");
+                                match (head, l.find(" implements ")) {
+                                    (true, Some(i)) => {
+                                        let rest = &l[i..];
+                                        let j = rest.find(" @").or_else(|| rest.find(" {")).unwrap_or(rest.len());
+                                        format!("{}{}", &l[..i], &rest[j..])
+                                    }
+                                    _ => l.to_string(),
+                                }
+                            })
+                            .collect();
+                        (p.clone(), t2.join("\n"))
+                    })
+                    .collect();
+                rep.probe("library_thread_reused_across_schemas");
+                let out = crate::hashseed::on_fresh_instance(hs, move || {
+                    let _ = crate::libgen::lib_generate(&cfg, &decoy, &[]);
+                    crate::libgen::lib_generate(&cfg, &sfiles, &ofiles)
+                });
                 match out {
                     Err(e) => rep.violate(&["C17"], "C17.4-library-pipeline-fails", format!("the CLI generated successfully but the library pipeline fails: {e}")),
                     Ok(lib) => {
@@ -1629,6 +1689,8 @@ fn drive_c18f(sc: &E2Scenario, rep: &mut RunReport) {
             _ => {
                 // output side: inputs were delivered exactly as in the golden run
                 if r.exit == 0 {
+                    // whatever is announced as generated is judged like any other generation
+                    artifacts::check_artifacts(sc, &tree0, &after, &p.listed, rep);
                     if after != gtree {
                         rep.violate(
                             &["C18"],
@@ -1947,6 +2009,31 @@ fn drive_c13(sc: &E2Scenario, rep: &mut RunReport) {
                 "C13.cli-import-error-missed",
                 format!("erroneous imports at {bad_lines:?} but no diagnostic is located on one of those lines; diagnostics: {:?}", p.diags),
             );
+        } else {
+            // every document whose closure contains an erroneous import gets an error: for each
+            // file with an erroneous line of its own, some diagnostic sits on an erroneous line of
+            // that file or of a file it reaches (the resolver reports the first one it meets)
+            let model: Vec<(String, Vec<crate::model::ImportLine>, Vec<String>, bool)> =
+                sc.project.ops.iter().enumerate().map(|(k, f)| (sc.project.op_abs(k), f.imports.clone(), vec![], true)).collect();
+            for (fi, f) in ops.iter().enumerate() {
+                if !bad_lines.iter().any(|(bf, _)| bf == f) {
+                    continue;
+                }
+                let mut reach: BTreeSet<String> = crate::e3::reference_closure(&model, fi).reach.iter().map(|r| ops[*r].clone()).collect();
+                reach.insert(f.clone());
+                let named = on_import.iter().any(|d| {
+                    let df = indep::norm(d.file.as_ref().unwrap());
+                    reach.contains(&df) && bad_lines.contains(&(df, d.line))
+                });
+                if !named {
+                    rep.violate(
+                        &["C13", "C18"],
+                        "C13.cli-import-error-missed",
+                        format!("{f} has an erroneous #import but no diagnostic is located on an erroneous #import line of it or of a file it imports; diagnostics: {:?}", p.diags.iter().map(|d| (d.file.clone(), d.line, d.col)).collect::<Vec<_>>()),
+                    );
+                    break;
+                }
+            }
         }
     }
 }
